@@ -101,6 +101,17 @@ def build_k1(shared_instances=False):
                 extend_latex_context=dict(macros=[macrospec.MacroSpec('defd', ['[', '{'])])
             )
     ))
+    macros.append(macrospec.MacroSpec(
+        'defs', ['{'],
+        # a definition made while parsing that adds specials and an environment, too
+        make_after_parsing_state_delta=lambda parsed_node, latex_walker:
+            macrospec.ParsingStateDeltaExtendLatexContextDb(
+                extend_latex_context=dict(
+                    macros=[macrospec.MacroSpec('defd', ['{'])],
+                    environments=[macrospec.EnvironmentSpec('denv', ['['])],
+                    specials=[macrospec.SpecialsSpec('~~'), macrospec.SpecialsSpec('&&', ['{']),
+                              macrospec.SpecialsSpec('!w')]))
+    ))
     environments = [
         macrospec.EnvironmentSpec('en', ['[', '{']),
         macrospec.EnvironmentSpec('em', [], body_parsing_state_delta=ParsingStateDeltaEnterMathMode()),
@@ -442,6 +453,9 @@ class DocGen(object):
                 return '\\begin{lverb}' + rng.choice(['a{b', 'x\n']) + '\\end{lverb}'
             return '\\unknownmacro '
         if x < 0.95:
+            if rng.random() < 0.5:
+                return rng.choice(['{\\defs{x} a~~b &&{c} !w}', '\\defs{y}\\begin{denv}[o]z\\end{denv} ~~',
+                                   'a~~b && c !w \\begin{denv}[o]z\\end{denv}', '~~ \\defs{z} ~~ &&{q}'])
             return '\\defn{x}' + rng.choice(['\\defd{y}', '\\defd[o]{y}', ' then \\defd{z} and \\mv{q{r}}'])
         return rng.choice(['\\mb{\\mv{a{b}c}}', '\\mx*[\\mw{p{q}}]{r}', '\\mr(\\md<x>(y))', '\\mA[\\mB<z>]'])
 
